@@ -139,7 +139,16 @@ func (c *Ctx) Finish() int {
 		knownOut[s] = c.known[s]
 	}
 	c.Ev.Extra["known_findings_hit"] = knownOut
-	// violations with a concrete input first; "no failing input" ones only if nothing concrete exists
+	// A violation of kind spec/runtime carries an input on which the PROPERTY fails (judged directly on
+	// the real code). Kinds correspondence/theorem say that the tie between the proved model and the
+	// code, or a proof obligation, no longer checks: the property is then no longer shown to hold, but
+	// the differing input is not by itself an input on which the property fails. Those are reported
+	// only when no failing input was found, and say so.
+	for _, s := range c.violOrder {
+		if v := c.viol[s]; v.Kind == "correspondence" || v.Kind == "theorem" {
+			v.NoFail = true
+		}
+	}
 	concrete := false
 	for _, s := range c.violOrder {
 		if !c.viol[s].NoFail {
